@@ -419,7 +419,7 @@ B 1
 @condition("C02.dangling",
            anchors=["polyply.src.polyply_parser:PolyplyParser._split_links_and_blocks", "polyply.src.polyply_parser:PolyplyParser._treat_link_atoms",
                     "polyply.src.polyply_parser:PolyplyParser.treat_link_multiple", "polyply.src.apply_links:ApplyLinks.run_molecule"],
-           rejects=(), must_cover=["window fits", "chain end", "interrupted"],
+           rejects=(), must_cover=["window fits", "chain end", "interrupted", "several molecule types in one .itp"],
            stubs=["apply_links.tqdm -> plain iteration"],
            outside=["dangling interactions spanning more than three residues", "monomers with more than 2 atoms"],
            bounds={"quick": dict(nmax=3, kinds=["bond 3 1 (next-residue atom first)", "bond 2 3", "angle 1 3 5", "angle 5 3 1 (own atom last)", "angle 2 1 3"]),
@@ -437,7 +437,16 @@ def dangling(sx, B):
     t, idx, params = DANGLING[kind]
     line = " ".join(str(i + 1) for i in idx) + " " + " ".join(params)
     text = ITP_A.format(bonds=line if t == "bonds" else "", angles=line if t == "angles" else "")
-    ff = parse_ff([("itp", text), ("ff", B_FF)])
+    # the other molecule type (no bonded sections at all) comes from a separate file or shares the monomer's .itp file
+    layout = sx.sel("file_layout", ["B in its own .ff file", "B follows A in the same .itp", "B precedes A in the same .itp"])
+    if layout == "B in its own .ff file":
+        ff = parse_ff([("itp", text), ("ff", B_FF)])
+    elif layout == "B follows A in the same .itp":
+        ff = parse_ff([("itp", text + B_FF)])
+        sx.cover("several molecule types in one .itp")
+    else:
+        ff = parse_ff([("itp", B_FF + text)])
+        sx.cover("several molecule types in one .itp")
     meta = residue_graph(n, [(i, i + 1) for i in range(n - 1)], names, [start + i for i in range(n)], ff=ff)
     MapToMolecule(ff).run_molecule(meta)
     with patched(al, tqdm=_Tqdm):
